@@ -78,6 +78,18 @@ def build_ext(repo=None, verbose=False):
     out = os.path.join(root, "out")
     stamp = os.path.join(root, "OK")
     if os.path.exists(stamp):
+        os.utime(root, None)          # in use: keeps it among the most recent ones
+        return out
+    # one build at a time (concurrent checks - e.g. several scratch worktrees - would remove each other's half-built trees)
+    import fcntl
+    os.makedirs(BUILD, exist_ok=True)
+    with open(os.path.join(BUILD, ".ext.lock"), "w") as lock:
+        fcntl.flock(lock, fcntl.LOCK_EX)
+        return _build_ext_locked(repo, root, out, stamp, verbose)
+
+
+def _build_ext_locked(repo, root, out, stamp, verbose):
+    if os.path.exists(stamp):
         return out
     if os.path.exists(root):
         shutil.rmtree(root)
@@ -103,11 +115,13 @@ def build_ext(repo=None, verbose=False):
     shutil.move(outreal, out)
     shutil.rmtree(src, ignore_errors=True)
     open(stamp, "w").close()
-    # drop stale caches (keep the 3 most recent)
+    # drop stale caches: keep the 8 most recent, and nothing that was used in the last two hours
+    import time
     olds = sorted((d for d in os.listdir(BUILD) if d.startswith("ext-")),
                   key=lambda d: os.path.getmtime(os.path.join(BUILD, d)))
-    for d in olds[:-3]:
-        shutil.rmtree(os.path.join(BUILD, d), ignore_errors=True)
+    for d in olds[:-8]:
+        if time.time() - os.path.getmtime(os.path.join(BUILD, d)) > 7200:
+            shutil.rmtree(os.path.join(BUILD, d), ignore_errors=True)
     return out
 
 
